@@ -15,7 +15,7 @@ SEEDED = os.path.join(VERIF, "seeded")
 
 
 def sh(cmd, cwd=None, timeout=1800):
-    r = subprocess.run(cmd, shell=True, cwd=cwd, stdout=subprocess.PIPE, stderr=subprocess.STDOUT, text=True, timeout=timeout)
+    r = subprocess.run(cmd, shell=True, cwd=cwd, stdout=subprocess.PIPE, stderr=subprocess.STDOUT, text=True, errors="replace", timeout=timeout)
     return r.returncode, r.stdout
 
 
